@@ -54,6 +54,9 @@ def _has_surrogate(s):
     return any(0xD800 <= ord(c) <= 0xDFFF for c in s)
 
 
+_HUGE = 10 ** 4000
+
+
 def enc(o):
     if isinstance(o, str) and _has_surrogate(o):
         # JSON would merge an adjacent high+low pair of *lone* surrogates into one astral character
@@ -63,7 +66,7 @@ def enc(o):
     if isinstance(o, int):
         if abs(o) >= 2 ** 53:
             # (CPython refuses decimal text for ints of more than 4300 digits: those travel in hex)
-            return {"$int": str(o) if abs(o) < 10 ** 4000 else hex(o)}
+            return {"$int": str(o) if -_HUGE < o < _HUGE else hex(o)}
         return o
     if isinstance(o, float):
         if math.isnan(o):
